@@ -431,6 +431,21 @@ pub fn gen_wasm(rng: &mut Rng, thorough: bool) -> Vec<String> {
         ));
         observe(&mut ops);
     }
+    if rng.chance(1, 8) {
+        // a migration sent by the admin CONTRACT as a sub-message with a reply; the migrate entry point itself dispatches a
+        // sub-message whose reply sets data: what the outer reply is handed is the execute-response encoding of that data
+        ops.push("exec u1 (upd c1_0 c2_1)".into());
+        ctx.sub_id += 2;
+        ops.push("rawhash".into());
+        ops.push(format!(
+            "exec u3 (exec c2_1 ((sub {} always ((attr r 1)) (mig c1_0 {} ((data 07) (sub {} always ((data {})) (send u2 1:d1)))))) -)",
+            ctx.sub_id - 1,
+            rng.range(1, ctx.codes),
+            ctx.sub_id,
+            rng.pick(&["0a0b", "-", "61*128"])
+        ));
+        observe(&mut ops);
+    }
     if rng.chance(1, 25) {
         // many FAILED smart queries, then good ones through App and from inside a contract: a query leaves nothing behind
         for _ in 0..12 {
